@@ -135,6 +135,36 @@ func init() {
 			st.assume(args[0].(*Term))
 			return nil
 		},
+		// vsProvablyDifferent(a, b): concrete true iff the byte strings differ in every model of the path condition
+		"vsProvablyDifferent": func(ex *Exec, st *State, fn *ssa.Function, args []Value, site ssa.Instruction) Value {
+			eq := ex.strEq(st, args[0].(*SliceV), args[1].(*SliceV))
+			if eq.IsConst() {
+				return Not(eq)
+			}
+			if st.known(eq) == 0 {
+				return True
+			}
+			if r := RunPortfolio(60, And(st.pcTerm(), eq), nil, ""); r.Verdict == "unsat" {
+				return True
+			}
+			return False
+		},
+		// vsProvablyEqual(a, b): concrete true iff the two byte strings are equal in every model of the path condition
+		// (syntactically, or by a solver proof); concrete false otherwise ("not known to be equal", NOT "different").
+		"vsProvablyEqual": func(ex *Exec, st *State, fn *ssa.Function, args []Value, site ssa.Instruction) Value {
+			eq := ex.strEq(st, args[0].(*SliceV), args[1].(*SliceV))
+			if eq.IsConst() {
+				return eq
+			}
+			if st.known(eq) == 1 {
+				return True
+			}
+			q := And(st.pcTerm(), Not(eq))
+			if r := RunPortfolio(60, q, nil, ""); r.Verdict == "unsat" {
+				return True
+			}
+			return False
+		},
 		"vsAssert": func(ex *Exec, st *State, fn *ssa.Function, args []Value, site ssa.Instruction) Value {
 			id := ex.argString(st, args[1])
 			ex.asserts = append(ex.asserts, Obligation{ID: id, PC: st.pcTerm(), Cond: args[0].(*Term), Pos: ex.pos(site), Case: ex.curCase})
@@ -736,11 +766,11 @@ func (ex *Exec) ufBytes(st *State, args []Value, injective bool) Value {
 		var os_ []opt
 		if s.Len.IsConst() {
 			os_ = []opt{{True, bs}}
-		} else if c, ok := ex.uniqueConst(st, s.Len); ok && int(c.ConstU()) <= len(bs) {
+		} else if c, ok := ex.uniqueConst(st, s.Len); ok && c.ConstU() <= uint64(len(bs)) {
 			os_ = []opt{{True, bs[:c.ConstU()]}}
 		} else if cs := constCands(s.Len, map[*Term][]*Term{}, 0); cs != nil && total*len(cs) <= 8 {
 			for _, c := range cs {
-				if int(c.ConstU()) <= len(bs) {
+				if c.ConstU() <= uint64(len(bs)) {
 					os_ = append(os_, opt{Eq(s.Len, c), bs[:c.ConstU()]})
 				}
 			}
